@@ -18,6 +18,7 @@ BUDGET = {
     "quick": {"examples": 300, "shards": 4, "case_timeout": 60, "wall_budget": 240},
     "thorough": {"examples": 8000, "shards": 16, "case_timeout": 120, "wall_budget": 1800},
 }
+FUZZ = {"quick": dict(runs=600, procs=2, wall_s=90), "thorough": dict(runs=40000, procs=16, wall_s=900)}
 TOLERANCES = {"all": "bit-identical (torch.equal)"}
 
 
